@@ -7,8 +7,8 @@ start = s.index('PROPS = {')
 end = s.index('PROPS["C09"]')
 new = '''PROPS = {
     "C01": [("verus", "lat_ord"), ("verus", "lat_wrap"), ("verus", "lat_pair"), ("verus", "lat_dom"), ("verus", "lat_set"),
-            ("kani", "vk_lat", ["::aci", "point_u8", "coll::set_aci"], ("quick",)),
-            ("kani", "vk_lat", ["::aci", "point_u8", "coll::set_aci", "coll::map_aci_small", "coll::map_comm_idem", "coll2::vec_union_aci",
+            ("kani", "vk_lat", ["::aci", "point_u8", "coll::set_aci", "coll::set_merge", "coll::map_merge_option", "coll::map_merge_singleton", "coll::map_merge_vecmap", "coll2::vec_union_merge", "coll3::tombstone_set_merge", "coll3::tombstone_set_lattice_from", "::from"], ("quick",)),
+            ("kani", "vk_lat", ["::aci", "point_u8", "coll::set_aci", "coll::set_merge", "coll::map_merge", "coll2::vec_union_merge", "coll3::tombstone_set_merge", "coll3::tombstone_set_lattice_from", "::from", "coll3::tombstone_map_merge", "coll::map_aci_small", "coll::map_comm_idem", "coll2::vec_union_aci",
                                 "coll2::union_find_merge"], ("thorough",))],
     "C02": [("verus", "lat_ord"), ("verus", "lat_wrap"), ("verus", "lat_pair"), ("verus", "lat_dom"), ("verus", "lat_set"),
             ("kani", "vk_lat", ["::changed", "point_u8", "coll::set_merge", "coll::map_merge_option", "coll::map_merge_singleton", "coll::map_merge_vecmap",
@@ -17,13 +17,13 @@ new = '''PROPS = {
                                 "coll2::union_find_union", "coll2::union_find_merge"], ("thorough",))],
     "C03": [("verus", "lat_ord"), ("verus", "lat_wrap"), ("verus", "lat_pair"), ("verus", "lat_dom"), ("verus", "lat_set"),
             ("kani", "vk_lat", ["::order", "::bot", "::top", "c03_withbot_unit_is_top", "c03_set_union_full_bool_is_top", "point_u8", "coll::set_cmp", "coll::set_bot_top_from",
-                                "coll::map_bot_top_from", "coll::set_bot_every", "coll2::vec_union_cmp", "coll3::tombstone_set_cmp"], ("quick",)),
+                                "coll::map_bot_top_from", "coll::set_bot_every", "coll::map_cmp_small", "coll2::vec_union_cmp", "coll3::tombstone_set_cmp"], ("quick",)),
             ("kani", "vk_lat", ["::order", "::bot", "::top", "c03_withbot_unit_is_top", "c03_set_union_full_bool_is_top", "point_u8", "coll::set_cmp", "coll::set_bot_top_from",
                                 "coll::map_bot_top_from", "coll::set_bot_every", "coll::map_cmp", "coll2::vec_union_cmp", "coll2::union_find_cmp", "coll3::tombstone_set_cmp"], ("thorough",))],
     "C04": [("verus", "lat_ord"), ("verus", "lat_wrap"), ("verus", "lat_pair"), ("verus", "lat_dom"), ("verus", "lat_set"),
-            ("kani", "vk_lat", ["::from", "::aci", "point_u8", "dompair_incomparable_keys", "coll3::tombstone_set_lattice_from", "coll::set_merge", "coll::set_bot_top_from", "coll::map_merge_option",
+            ("kani", "vk_lat", ["::from", "::aci", "point_u8", "dompair_incomparable_keys", "coll3::tombstone_set_lattice_from", "coll3::tombstone_set_merge", "coll::set_merge", "coll::set_bot_top_from", "coll::map_merge_option",
                                 "coll::map_merge_singleton", "coll::map_merge_vecmap", "coll::map_bot_top_from", "coll2::vec_union_merge", "coll2::vec_union_cmp"], ("quick",)),
-            ("kani", "vk_lat", ["::from", "::aci", "point_u8", "dompair_incomparable_keys", "coll3::tombstone_set_lattice_from", "coll::set_merge", "coll::set_bot_top_from", "coll::map_merge",
+            ("kani", "vk_lat", ["::from", "::aci", "point_u8", "dompair_incomparable_keys", "coll3::tombstone_set_lattice_from", "coll3::tombstone_set_merge", "coll::set_merge", "coll::set_bot_top_from", "coll::map_merge",
                                 "coll::map_bot_top_from", "coll2::vec_union_merge", "coll2::vec_union_cmp", "coll2::union_find_union",
                                 "coll2::union_find_merge"], ("thorough",))],
 }
